@@ -30,7 +30,9 @@ def cases(seed, tier):
     return [{"seed": seed * 1_000_003 + 19001 + i, "what": ["productmap", "vmap1d", "spacemap", "kwargs", "kwargs"][i % 5]} for i in range(n)]
 
 
-def make_sig(r, n):
+def make_sig(r, n, defaults=False):
+    """`defaults`: trailing positional parameters and some keyword-only parameters get default values (the wrappers demand
+    every parameter all the same - a default is never a licence to leave an argument out)"""
     ps = NAMES[:n]
     r.shuffle(ps)
     npo = r.choice([0, 0, 0, 1, 2]) if n > 1 else r.choice([0, 0, 1])
@@ -46,6 +48,18 @@ def make_sig(r, n):
         sig.append(p)
     if npo == n:
         sig.append("/")
+    if defaults:
+        npos = sum(k != "kwOnly" for k in kinds)
+        cut = r.randint(0, npos)          # positional parameters from `cut` on have defaults
+        seen = 0
+        for j, tok in enumerate(sig):
+            if tok in ("/", "*"):
+                continue
+            k = kinds[ps.index(tok)]
+            if (k != "kwOnly" and seen >= cut) or (k == "kwOnly" and r.random() < 0.5):
+                sig[j] = f"{tok}={1000 + 7 * j}"
+            if k != "kwOnly":
+                seen += 1
     return ps, kinds, ", ".join(sig)
 
 
@@ -216,7 +230,7 @@ def run_kwargs(r, out):
 
     vs = out["violations"]
     n = r.randint(1, 5)
-    ps, kinds, sig = make_sig(r, n)
+    ps, kinds, sig = make_sig(r, n, defaults=r.random() < 0.4)
     ns = {}
     exec(f"def f({sig}):\n    return dict({', '.join(f'{p}={p}' for p in ps)})\n", ns)  # noqa: S102
     f = ns["f"]
